@@ -26,6 +26,16 @@ type ctx struct {
 	yield func() // device reads yield through this (nil in the solo phase)
 }
 
+// failing returns a device that delivers seed%32 bytes and then fails.
+func (c *ctx) failing(seed uint64) *kernel.Device {
+	cfg := kernel.Healthy(seed)
+	cfg.ErrAt = int(seed % 32)
+	cfg.ErrKind = kernel.ErrCustom
+	d := kernel.NewDevice(cfg)
+	d.Yield = c.yield
+	return d
+}
+
 func (c *ctx) device(seed uint64, chunked bool) *kernel.Device {
 	cfg := kernel.Healthy(seed)
 	if chunked {
@@ -338,6 +348,45 @@ func init() {
 			q, derr := ref.Decode(append([]byte{2}, k.PublicKey().Bytes()...))
 			want := ref.BaseMul(ref.OS2IP(k.Bytes()))
 			return "valid=" + b2s(derr == nil && !q.Inf && want.X.Cmp(q.X) == 0)
+		}},
+		// ---------------- large batches (a different code path may be taken above some size)
+		{name: "MultiScalarMult(large batch)", warm: true, run: func(fx *Fixture, o *Op, c *ctx) string {
+			n := []int{65, 70, 100, 33}[((o.C%4)+4)%4]
+			ss := make([]*secp256k1.Scalar, 0, n)
+			ps := make([]*secp256k1.Point, 0, n)
+			for i := 0; i < n; i++ {
+				ss = append(ss, pick(fx.scalars, o.A+i))
+				ps = append(ps, pick(fx.points, o.B+i*(1+o.A%3)))
+			}
+			if o.Seed&1 == 0 {
+				return hx(P().MultiScalarMultVartime(ss, ps).CompressedBytes())
+			}
+			return hx(P().MultiScalarMult(ss, ps).CompressedBytes())
+		}},
+		// ---------------- failing entropy source in the middle of concurrent use
+		{name: "Sign(failing device)", warm: true, run: func(fx *Fixture, o *Op, c *ctx) string {
+			sig, err := pick(fx.privs, o.A).Sign(c.failing(o.Seed), pick(fx.digests, o.B), fx.opts)
+			return fmt.Sprintf("%x/%s", sig, errStr(err))
+		}},
+		{name: "SchnorrSign(failing device)", warm: true, run: func(fx *Fixture, o *Op, c *ctx) string {
+			sig, err := pick(fx.sprivs, o.A).Sign(c.failing(o.Seed), pick(fx.msgs, o.B), nil)
+			return fmt.Sprintf("%x/%s", sig, errStr(err))
+		}},
+		// ---------------- a recovered key is used after other verifications ran
+		{name: "RecoverPublicKey+use", warm: true, run: func(fx *Fixture, o *Op, c *ctx) string {
+			i := ((o.A % len(fx.sigR)) + len(fx.sigR)) % len(fx.sigR)
+			q, err := secec.RecoverPublicKey(fx.digests[0], fx.sigR[i], fx.sigS[i], fx.sigV[i])
+			if err != nil {
+				return "valid=0(err)"
+			}
+			// somebody else's verification in between
+			j := (i + 1) % len(fx.sigR)
+			other := pick(fx.pubs, j).VerifyRaw(fx.digests[0], fx.sigR[j], fx.sigS[j])
+			ok := q.VerifyRaw(fx.digests[0], fx.sigR[i], fx.sigS[i])
+			pt := q.Point()
+			same := hx(pt.UncompressedBytes()) == hx(q.Bytes()) && hx(q.Bytes()) == hx(fx.modelQ[i].Uncompressed())
+			_, eerr := pick(fx.privs, o.B).ECDH(q)
+			return "valid=" + b2s(ok && same && other && eerr == nil)
 		}},
 		// ---------------- cold-start composites: construct from shared bytes, then use
 		{name: "cold:NewPrivateKey+Sign(RFC6979)", cold: true, warm: true, run: func(fx *Fixture, o *Op, c *ctx) string {
